@@ -143,6 +143,10 @@ def boolean_partial_evaluation(S):
     S.ensure("original-unchanged", frame.diff(before, frame.snap(dom)) is None)
     S.ensure("same-kind-of-domain", d2.cls is dom.cls and d2 is not dom)
     S.ensure("remaining-free-variables", set(S.getattr(d2, "necessary_variables")) == {"s"})
+    # history: a second evaluation at another value before the first evaluated domain is used
+    d3 = S.call(dom, t=S.tensor("T1", [1, 1]))
+    S.ensure("second-evaluation-is-another-object-original-still-unchanged", d3 is not d2 and d3 is not dom and frame.diff(before, frame.snap(dom)) is None)
+    S.ensure("first-evaluated-domain-keeps-its-operands", S.getattr(d2, "domain_a") is not S.getattr(d3, "domain_a") and S.getattr(d2, "domain_b") is not S.getattr(d3, "domain_b"))
     if op == "union":
         S.ensure("declared-disjointness-kept", S.getattr(d2, "disjoint") is True)
     if op == "cut":
